@@ -120,7 +120,9 @@ def check(ctx, src):
                 continue
             cn = (dotted(r.exc.func) if isinstance(r.exc, ast.Call) else dotted(r.exc)) or ""
             base = cn.split(".")[0]
-            ctx.check(base in lex, "FUNNEL-OUTSIDE", f"{mod.rel}|{name}|raise {base}", f"`{name}` runs outside the converting try and raises {base}, which is not a reader error", mod.rel, r.lineno,
+            import builtins as _b
+            known_class = base in ex.classes or isinstance(getattr(_b, base, None), type)
+            ctx.decide("FUNNEL-OUTSIDE", f"{mod.rel}|{name}|raise {base}", (base in lex) if known_class else None, f"`{name}` runs outside the converting try and raises {base}, which is not a reader error", mod.rel, r.lineno,
                       witness="hy.read-many raises that exception type", detail="LexException subclass")
         if name != "try_parse_one_form":
             extra = sorted(c for c in rq.calls_of(f) if c not in OUTSIDE_OK_CALLS and c in rq.methods)
